@@ -191,6 +191,8 @@ class ModelSystem(System):
         if len(c.r_attackers) < self.max_attackers and c.r_assets:
             # an attachment that got its entry point before it is given to the model
             ops.append((('add_attacker_prefilled', sorted(c.r_assets)[0]), 0))
+            # ... built by hand with two entry-point tuples for one asset
+            ops.append((('add_attacker_prefilled', sorted(c.r_assets)[-1], 'split'), 1))
             if self.invalid_ops:
                 for a in self._stale_assets(c)[-1:]:
                     if hasattr(c.assets[a], 'id') and hasattr(c.assets[a], 'name'):
@@ -305,7 +307,11 @@ class ModelSystem(System):
         ep = {}
         for g, att in enumerate(c.attackers):
             if g in c.r_attackers:
-                ep[g] = tuple(sorted((hof.get(id(a), -1), tuple(steps)) for a, steps in att.entry_points))
+                merged = {}
+                for a, steps in att.entry_points:      # several tuples for one asset count as one entry
+                    lst = merged.setdefault(hof.get(id(a), -1), [])
+                    lst.extend(x for x in steps if x not in lst)
+                ep[g] = tuple(sorted((h, tuple(v)) for h, v in merged.items()))
         o['entry_points'] = ep
         return o
 
@@ -712,15 +718,20 @@ class ModelSystem(System):
         s0 = self.ep_steps[0]
         live = a in c.r_assets
 
+        split = len(op) > 2 and op[2] == 'split'
+
         def thunk():
-            obj.add_entry_point(c.assets[a], s0)
+            if split:
+                obj.entry_points = [(c.assets[a], [s0]), (c.assets[a], [s0])]
+            else:
+                obj.add_entry_point(c.assets[a], s0)
             c.model.add_attacker(obj)
 
         def commit(checking):
             # an entry point on an asset that is not in the model must not become visible through the model
             c.r_attackers[g] = {'id': obj.id, 'name': obj.name, 'eps': ({a: [s0]} if live else {})}
         if live:
-            return MUST_SUCCEED, thunk, commit, 'live_asset'
+            return MUST_SUCCEED, thunk, commit, 'live_asset' + (',two_tuples' if split else '')
         return 'raise_unchanged_or_commit', thunk, commit, 'asset_not_in_model'
 
     def op_readd_attacker(self, c, op):
